@@ -10,15 +10,20 @@ import (
 
 type Mutex struct{ mu sync.Mutex }
 
-func (m *Mutex) Lock()   { ctl.Turn()(); m.mu.Lock() }
-func (m *Mutex) Unlock() { defer ctl.Turn()(); m.mu.Unlock() }
+func (m *Mutex) Lock()   { ctl.TurnK(3)(); m.mu.Lock() }
+func (m *Mutex) Unlock() { defer ctl.TurnK(3)(); m.mu.Unlock() }
 
 type RWMutex struct{ mu sync.RWMutex }
 
-func (m *RWMutex) Lock()    { ctl.Turn()(); m.mu.Lock() }
-func (m *RWMutex) Unlock()  { defer ctl.Turn()(); m.mu.Unlock() }
-func (m *RWMutex) RLock()   { ctl.Turn()(); m.mu.RLock() }
-func (m *RWMutex) RUnlock() { defer ctl.Turn()(); m.mu.RUnlock() }
+func (m *RWMutex) Lock()    { ctl.TurnK(3)(); m.mu.Lock() }
+func (m *RWMutex) Unlock()  { defer ctl.TurnK(3)(); m.mu.Unlock() }
+func (m *RWMutex) RLock()   { ctl.TurnK(3)(); m.mu.RLock() }
+func (m *RWMutex) RUnlock() { defer ctl.TurnK(3)(); m.mu.RUnlock() }
 
-type WaitGroup = sync.WaitGroup
+// WaitGroup operations are gated as kind 4 (only controlled where VERIF_SHIM_KINDS lists it).
+type WaitGroup struct{ wg sync.WaitGroup }
+
+func (w *WaitGroup) Add(d int) { defer ctl.TurnK(4)(); w.wg.Add(d) }
+func (w *WaitGroup) Done()     { defer ctl.TurnK(4)(); w.wg.Done() }
+func (w *WaitGroup) Wait()     { ctl.TurnK(4)(); w.wg.Wait() }
 type Once = sync.Once
